@@ -13,7 +13,9 @@ A `Could not log messages to database` warning is a completeness violation.
 The widened part of the tie lives in `harness/lib/c11x.py` (case families `multi`: several producers behind the client
 mutex incl. the real tester-present worker, cancellations of single tasks, injected write faults; `tables`: programs of
 DBHandler API calls, all tables read back, foreign keys; `life`: a real UDSScanner through entry_point(), the
-scanner-level implicit-logging switch); those cases run first.
+scanner-level implicit-logging switch); those cases run first.  `harness/lib/c11s.py` adds the family `slowdb`: a slow or
+contended database at shutdown (another sqlite3 connection holds the write lock of the file while exchanges are logged and
+disconnect() is called - real time, evaluated concurrently in own processes; writer latencies in virtual time).
 """
 from __future__ import annotations
 
@@ -41,6 +43,7 @@ ASSUMPTIONS = [
     "wall-clock timestamps (datetime.now) are non-decreasing during a run",
     "a call of ECU.request that is cancelled while it waits for the client mutex leaves a row (no reply, no exception) although nothing was transmitted: modelled as the code does it (Call.granted = false), not counted as a violation - the property speaks about requests that were put on the wire",
     "write faults are OperationalErrors raised by execute / commit of the writer task, any finite number per row (injected into the real connection object); faults of the statements the run task executes itself (insert_run_meta, insert_scan_run, ...: no retry in the code, the exception reaches the caller) and recurring faults (join() never returns: theorem join_blocks_while_writes_fail, the code's own TODO) are outside the tie",
+    "a slow database: the other connection holds the write lock for 0.2 .. 7.5 s (quick tier: 0.4 / 2.5 / 6.5 s), below the handler's busy_timeout of 10 s, so no statement of the writer fails - it waits inside sqlite; writer latencies are 1 ms .. 30 s of virtual time per execute / commit with backlogs of 1 .. 80 rows; a lock held longer than busy_timeout turns into OperationalErrors (the fault dimension above); each real-time case is bounded by a wall-clock watchdog (hold + 25 s) and a process-level one",
     "the writer task has had its first step before disconnect() (in the lifecycle insert_run_meta follows connect() and suspends); the tables error_log / ecu, which DBHandler never writes, are outside the model",
 ]
 
@@ -1282,6 +1285,7 @@ def run(ctx):
     ctx.exhaustive_parts.append("UDSScanner through entry_point(): the switch set in the constructor (5 patterns) x ping x properties x tester-present x ecu_reset")
     ctx.exhaustive_parts.append("every single-row write-fault pattern (execute / commit, 1..2 failures) on a burst of 3 queued rows")
     ctx.exhaustive_parts.append("the lifecycle order of DBHandler API calls (with and without discovery) cancelled at every awaited statement")
+    ctx.notes["slow_database_lock_holds_s"] = [c["hold"] for _, c in lock_cases]
     ctx.exhaustive_parts.append("cancellation requested (not yet delivered) at every read of the last exchange of small histories, and at the end of bursts long enough to fill the write queue if it had a capacity")
     budget = ctx.pick(60, 780)
     pending = []
@@ -1377,6 +1381,9 @@ MANIFEST = {
                    "byte string handed to a raw entry point (stored_request_is_wire, over the dynamic parser of C01); the level unlocked "
                    "by sendKey survives a session read-back that reports the held session and is dropped by one that reports another "
                    "(readback_same_session_keeps_state, readback_other_session_resets, level_survives_same_session_readback). "
+                   "(6) A slow database at shutdown: disconnect() makes the whole backlog durable however long the consumer needs; a "
+                   "wait bounded to b more rows is complete iff the backlog is at most b, and for every b a history loses rows "
+                   "(disconnect_writes_whole_backlog, bounded_sync_complete_iff, bounded_sync_loses_rows). "
                    "Tied to the code by a correspondence run of the real ECU "
                    "+ DBHandler + sqlite file: every request kind x outcome class, cancellation at every await, seeded "
                    "histories; 3 concurrent tasks incl. the real tester-present worker over scripted latencies with cancellations "
@@ -1384,7 +1391,9 @@ MANIFEST = {
                    "file, all tables read back + PRAGMA foreign_key_check; a real UDSScanner through entry_point(); raw requests with "
                    "arbitrary bytes (well-formed, truncated, over-long, odd-length, every service / sub-function id of the codec) through "
                    "send_raw / request(RawRequest); walks over the state-driving replies with the recorded state judged against the "
-                   "model's fold."),
+                   "model's fold; histories logged and closed while another sqlite3 connection holds the write lock of the file for "
+                   "0.2 .. 7.5 s (real time) and with writer latencies of 1 ms .. 30 s per statement (virtual time), with and without "
+                   "a cancelled / failing run."),
     "level_note": ("Trusted: Lean kernel, sqlite/aiosqlite/file system durability, asyncio.Queue / asyncio.Lock contracts, wall "
                    "clock monotonicity, the harness. The inner retry loop's outcome is an input of the model (C04 owns it). The "
                    "atomicity of the finally-block, the unbounded queue, the shape of the writer's retry loop, the awaited steps of "
